@@ -935,6 +935,57 @@ static void scalar_aliasing(Ctx& ctx) {
     }
 }
 
+// ------------------------------------------------------------------------------------------------ results observed through references
+// Nested expressions whose result is bound to a reference or iterated in place (const A& r = (a+b)+c; auto&& r = ...; range-for):
+// every operator returns a value, so the temporary lives as long as the reference.  Reference result: the same steps with named
+// intermediate arrays.  (An operator overload for temporaries that hands back a reference to its dying operand fails here; the
+// AddressSanitizer pass reports the read, the plain pass sees the values.)
+template<class E>
+static void ref_binding(Ctx& ctx) {
+    using A = base_array<E>;
+    for (int n : {1, 5, 64, 1000}) {
+        if (!ctx.take("expr.refbind", P().kv("type", Tr<A>::name()).kv("n", n))) continue;
+        const A a = tagged<E>(n, 1), b = tagged<E>(n, 7), c = tagged<E>(n, 3);
+        int bad = 0;
+        auto judge = [&](const char* form, const A& got, const A& want) {
+            ++ctx.evaluations;
+            ++ctx.checks["expr.refbind"].evals;
+            if (!bits_equal(got, want) && bad++ < 2) ctx.fail(form, fmt("n=%d: the array seen through the reference differs from the stepwise result", n), "element-wise result of the expression", P().kv("form", form));
+        };
+        const A ab = a + b, amb = a - b, axb = a * b;
+        {
+            const A& r = (a + b) + c;
+            const A want = ab + c;
+            judge("const A& r = (a+b)+c", r, want);
+        }
+        {
+            auto&& r = (a - b) * c;
+            const A want = amb * c;
+            judge("auto&& r = (a-b)*c", r, want);
+        }
+        {
+            const A& r = ((a * b) - c) / b;
+            const A t = axb - c;
+            const A want = t / b;
+            judge("const A& r = ((a*b)-c)/b", r, want);
+        }
+        {
+            A got(n);
+            int i = 0;
+            for (const auto& v : (a * b) - c) got[i++] = v;
+            const A want = axb - c;
+            judge("for (v : (a*b)-c)", got, want);
+        }
+        {
+            const A& r = -((a + b) - c);
+            const A t = ab - c;
+            const A want = -t;
+            judge("const A& r = -((a+b)-c)", r, want);
+        }
+        ctx.nontrivial();
+    }
+}
+
 // ------------------------------------------------------------------------------------------------ concatenation, selection
 template<class E>
 static std::vector<int> tags_of(const std::vector<int>& lens) {
@@ -2117,6 +2168,8 @@ int main(int argc, char** argv) {
     elem_aliasing<arr_real>(ctx);
     elem_aliasing<arr_cmplx>(ctx);
     scalar_aliasing(ctx);
+    ref_binding<real_t>(ctx);
+    ref_binding<cmplx_t>(ctx);
     concat_same<real_t>(ctx);
     concat_same<cmplx_t>(ctx);
     concat_mixed(ctx);
